@@ -175,7 +175,7 @@ func waitStr(w int) string {
 
 // header fields through the public accessors, item through the representation
 func projMsg(m *ast.DataMessage) J {
-	return J{"name": chars(m.Name()), "s": m.StreamCode(), "f": m.FunctionCode(), "w": m.WaitBit(),
+	return J{"name": textChars(m.Name()), "s": m.StreamCode(), "f": m.FunctionCode(), "w": m.WaitBit(),
 		"dir": m.Direction(), "sid": m.SessionID(), "sys": bytesJ(m.SystemBytes()),
 		"item": projItem(ast.VerifDataItem(m))}
 }
